@@ -92,6 +92,20 @@ def table_event(ch_name, mk, p1000, alphabet, dtype, shape, er, seed, N):
     return ev
 
 
+def _maker(cls, p, er, form):
+    """The channel object built through one of the documented construction forms."""
+    from kaira.channels import BinaryErasureChannel, ChannelRegistry
+    pname = {"BinarySymmetricChannel": "crossover_prob", "BinaryErasureChannel": "erasure_prob", "BinaryZChannel": "error_prob"}[cls.__name__]
+    bec = cls is BinaryErasureChannel
+    if form == "positional":
+        return (lambda: cls(p, er)) if bec else (lambda: cls(p))
+    if form == "keyword":
+        return (lambda: cls(**{pname: p, "erasure_symbol": er})) if bec else (lambda: cls(**{pname: p}))
+    if form == "registry":
+        return (lambda: ChannelRegistry.create(cls.__name__.lower(), **({pname: p, "erasure_symbol": er} if bec else {pname: p})))
+    return (lambda: cls(p, erasure_symbol=er)) if bec else (lambda: cls(p))
+
+
 def run(run):
     rng = random.Random(run.seed)
     quick = run.tier == "quick"
@@ -120,7 +134,10 @@ def run(run):
                             er = 0.0            # an erasure symbol inside the alphabet would be indistinguishable from a symbol
                         shape = shapes[(pi + di) % len(shapes)]
                         cfg = {"channel": ch_name, "p": p / 1000.0, "alphabet": alphabet, "dtype": str(dt).replace("torch.", ""), "ndim": len(shape), "erasure_symbol": er}
-                        mk = (lambda cls=cls, p=p, er=er: cls(p / 1000.0) if cls is not BinaryErasureChannel else cls(p / 1000.0, erasure_symbol=er))
+                        # construction forms in turn: keyword erasure symbol, everything positional, everything by keyword, by registry name
+                        form = ("default", "positional", "keyword", "registry")[tid % 4]
+                        cfg["form"] = form
+                        mk = _maker(cls, p / 1000.0, er, form)
                         tid += 1
                         try:
                             e = table_event(ch_name, mk, p, alphabet, dt, shape, er, run.seed * 1000 + tid, N)
